@@ -50,6 +50,8 @@ impl ResShape {
 #[derive(Clone, Debug)]
 pub struct DepShape {
   pub key: String,
+  /// text of the `@deno-types` / `@ts-types` pragma the type target came from
+  pub deno_types: Option<String>,
   pub is_dynamic: bool,
   pub code: ResShape,
   pub typ: ResShape,
@@ -103,6 +105,7 @@ fn deps_of(
     .iter()
     .map(|(k, d)| DepShape {
       key: k.clone(),
+      deno_types: d.maybe_deno_types_specifier.clone(),
       is_dynamic: d.is_dynamic,
       code: ResShape::of(&d.maybe_code),
       typ: ResShape::of(&d.maybe_type),
